@@ -644,3 +644,87 @@ pub fn managed_list(bytes: &[u8]) -> Vec<String> {
     out.sort();
     out
 }
+
+
+// ------------------------------------------------------------------ directed: meta.json replace fails, then GC
+pub struct MetaFailure {
+    pub variant: &'static str,
+    /// documents of the last commit that returned Ok
+    pub committed: BTreeSet<u64>,
+    /// documents the failed operation would have published (same set for a merge)
+    pub attempted: BTreeSet<u64>,
+    pub failed_call_reported_error: bool,
+    pub faults_fired: usize,
+    /// recovery of the directory as it is right after the same writer's garbage collection (writer still alive), and after the writer was dropped
+    pub after_gc: Recovery,
+    pub after_drop: Recovery,
+    pub log: Vec<Event>,
+    pub panicked: Option<String>,
+}
+
+/// One I/O error exactly at the atomic replace of meta.json -- at the end of a merge of committed segments ("merge")
+/// or in a commit whose deletes empty a whole segment ("commit") -- followed by a garbage collection of the SAME writer.
+/// The failed call must report the error, and the storage must still hold the last successful commit, complete.
+pub fn meta_write_failure_then_gc(variant: &'static str) -> MetaFailure {
+    let vd = VerifDirectory::new();
+    let (schema, f) = schema();
+    let mut committed = BTreeSet::new();
+    let mut attempted = BTreeSet::new();
+    let mut reported = false;
+    let mut panicked = None;
+    let mut after_gc = None;
+    let r = guarded(|| -> tantivy::Result<()> {
+        let index = Index::create(vd.clone(), schema.clone(), IndexSettings::default())?;
+        let mut w: IndexWriter<TantivyDocument> = index.writer_with_num_threads(1, 15_000_000)?;
+        w.set_merge_policy(Box::new(NoMergePolicy));
+        w.add_document(doc!(f.id => 1u64, f.tag => "t0", f.body => "a b"))?;
+        w.add_document(doc!(f.id => 2u64, f.tag => "t0", f.body => "b c"))?;
+        w.commit()?;
+        w.add_document(doc!(f.id => 3u64, f.tag => "t1", f.body => "c d"))?;
+        w.add_document(doc!(f.id => 4u64, f.tag => "t1", f.body => "d e"))?;
+        w.commit()?;
+        committed = [1u64, 2, 3, 4].into_iter().collect();
+        vd.mark("armed");
+        vd.set_fault_once(OpKind::AtomicWrite, "meta.json");
+        if variant == "merge" {
+            attempted = committed.clone();
+            let ids = index.searchable_segment_ids()?;
+            reported = w.merge(&ids).wait().is_err();
+        } else {
+            attempted = [3u64, 4].into_iter().collect();
+            w.delete_term(Term::from_field_text(f.tag, "t0"));
+            reported = w.commit().is_err();
+        }
+        let _ = w.garbage_collect_files().wait();
+        vd.mark("collected");
+        let img: BTreeMap<String, Vec<u8>> = vd.files().into_iter().filter(|(n, _)| !n.starts_with(".tantivy-")).collect();
+        after_gc = Some(recover(&img));
+        drop(w);
+        Ok(())
+    });
+    match r { Ok(Ok(())) => {}, Ok(Err(e)) => panicked = Some(format!("scenario error: {e}")), Err(p) => panicked = Some(p) }
+    let faults_fired = vd.faults_fired();
+    let img: BTreeMap<String, Vec<u8>> = vd.files().into_iter().filter(|(n, _)| !n.starts_with(".tantivy-")).collect();
+    let after_drop = recover(&img);
+    let empty = || Recovery { opened: false, error: "scenario did not get that far".into(), ids: None, checksum_clean: false, resumed: false, resume_error: String::new(), files_after: vec![], managed_after: vec![], living_after: vec![] };
+    MetaFailure { variant, committed, attempted, failed_call_reported_error: reported, faults_fired, after_gc: after_gc.unwrap_or_else(empty), after_drop, log: vd.log(), panicked }
+}
+
+/// spec of `meta_write_failure_then_gc`, as (ok, description) pairs
+pub fn meta_failure_verdicts(m: &MetaFailure) -> Vec<(bool, Value)> {
+    let mut v = vec![];
+    let d = json!({"directed": format!("two commits, then ONE I/O error at the replace of meta.json in a {} , then garbage_collect_files() on the same writer", if m.variant == "merge" { "merge of the committed segments" } else { "commit whose delete empties a segment" })});
+    if let Some(p) = &m.panicked { v.push((false, json!({"what": "directed meta.json-failure scenario panicked / failed unexpectedly", "err": p, "case": d}))); return v; }
+    if m.faults_fired != 1 { v.push((false, json!({"what": "directed meta.json-failure scenario: the fault did not fire exactly once", "fired": m.faults_fired, "case": d}))); return v; }
+    v.push((m.failed_call_reported_error, json!({"what": "an I/O error at the replace of meta.json was not reported by the merge / commit call", "case": d})));
+    for (when, rec) in [("right after the writer's garbage collection", &m.after_gc), ("after the writer was dropped", &m.after_drop)] {
+        let ok_open = rec.opened && rec.checksum_clean;
+        v.push((ok_open, json!({"what": "after a failed replace of meta.json and a garbage collection the index on storage cannot be opened / has a damaged or missing file", "when": when, "err": rec.error, "case": d})));
+        if let Some(ids) = &rec.ids {
+            v.push((ids == &m.committed || ids == &m.attempted, json!({"what": "after a failed replace of meta.json the storage does not hold the last successful commit", "when": when, "got": ids, "last_commit": m.committed, "case": d})));
+        } else if ok_open {
+            v.push((false, json!({"what": "after a failed replace of meta.json and a garbage collection the index cannot be searched (a file of the last commit was removed?)", "when": when, "err": rec.error, "case": d})));
+        }
+    }
+    v
+}
